@@ -4,6 +4,7 @@ package main
 
 import (
 	"crypto/tls"
+	"crypto/x509"
 	"fmt"
 	"io"
 	"net"
@@ -19,15 +20,30 @@ import (
 // one connection of a given kind against the running stack; returns when the client side is done
 func metricsConn(e *e2eEnv, kind string, r *rng) {
 	switch kind {
-	case "h2", "h1", "noalpn", "abort-after-h1", "abort-after-h2":
+	case "reject-cert-h2", "reject-cert-h1":
+		// the client offers ALPN, the server picks a protocol while it processes the hello, then the client refuses the
+		// certificate: a failed handshake, to be counted as ok="0" with an EMPTY protocol
+		c, err := net.DialTimeout("tcp", e.addr, 3*time.Second)
+		if err != nil {
+			return
+		}
+		alpn := []string{"h2", "http/1.1"}
+		if kind == "reject-cert-h1" {
+			alpn = []string{"http/1.1"}
+		}
+		tc := tls.Client(c, &tls.Config{ServerName: "example.test", NextProtos: alpn, RootCAs: x509.NewCertPool()})
+		tc.SetDeadline(time.Now().Add(3 * time.Second))
+		tc.Handshake()
+		c.Close()
+	case "h2", "h1", "noalpn", "abort-after-h1", "abort-after-h2", "rst-after-h1", "rst-after-h2":
 		cc := clientCfg{kind: "go", sni: "example.test", peer: "127.0.0.1"}
 		switch kind {
-		case "h2", "abort-after-h2":
+		case "h2", "abort-after-h2", "rst-after-h2":
 			cc.alpn = []string{"h2", "http/1.1"}
-		case "h1", "abort-after-h1":
+		case "h1", "abort-after-h1", "rst-after-h1":
 			cc.alpn = []string{"http/1.1"}
 		}
-		conn, _, neg, err := dialProxy(e, cc)
+		conn, rc, neg, err := dialProxy(e, cc)
 		if err != nil {
 			return
 		}
@@ -40,6 +56,16 @@ func metricsConn(e *e2eEnv, kind string, r *rng) {
 			h2Exchange(conn, []string{"S:", "H:1.1.-.0.0"}, req)
 		} else {
 			h1Exchange(conn, req)
+		}
+		if strings.HasPrefix(kind, "rst-after") {
+			// the client vanishes with a TCP reset after a served exchange: the proxy cannot even send close_notify
+			if rc != nil {
+				if t, ok := rc.Conn.(*net.TCPConn); ok {
+					t.SetLinger(0)
+					t.Close()
+					return
+				}
+			}
 		}
 		conn.Close()
 	case "plainhttp":
@@ -171,7 +197,8 @@ func init() {
 	})
 
 	register("metrics", "requests_total: batches of concurrent connections with every outcome against the real stack", func(c *ctx) {
-		kinds := []string{"h2", "h1", "noalpn", "plainhttp", "garbage", "abort-hello", "stall", "abort-after-h1", "abort-after-h2", "tls10"}
+		kinds := []string{"h2", "h1", "noalpn", "plainhttp", "garbage", "abort-hello", "stall", "abort-after-h1", "abort-after-h2", "tls10",
+			"reject-cert-h2", "reject-cert-h1", "rst-after-h1", "rst-after-h2"}
 		for i := 0; i < c.count; i++ {
 			r := c.rng.fork()
 			n := r.rangeI(1, 24)
